@@ -71,6 +71,33 @@ def histories(c, tier):
     return hs
 
 
+def judge_reseed(c):
+    """a model constructed with another seed and then given this seed through
+    its public attribute must answer like a model constructed with it"""
+    out = []
+    try:
+        ref = _call(fresh_module(), c)
+        for s0 in (c["seed"] + 1, c["seed"] + 7, 20):
+            if s0 == c["seed"]:
+                continue
+            mod = fresh_module()
+            deg = getattr(mod.DelayModel.DelayDegree, c["degree"])
+            dm = mod.DelayModel(c["prob"], c["dist"], deg, s0)
+            dm.seed = c["seed"]
+            got = copy.copy(dm).generate_delay(c["runtime"])
+            if got != ref:
+                out.append(("C15.deterministic",
+                            "result-depends-on-the-seed-the-model-was-built-"
+                            "with:%s" % c["dist"],
+                            {"constructed_with": s0, "alone": ref,
+                             "reseeded": got}))
+                break
+    except Exception as e:
+        return [("C15.never-fails", "raised-%s:%s:after-reseeding" % (
+            type(e).__name__, c["dist"]), {"error": repr(e)})]
+    return out
+
+
 def judge_history(c, hist, coord):
     """[hist..., c] from a fresh module state must answer c like [c] does."""
     try:
@@ -111,6 +138,8 @@ PROBS = (0, 0.1, 0.5, 1)
 
 
 def judge_fn(c):
+    if c.get("reseed"):
+        return judge_reseed({k: v for k, v in c.items() if k != "reseed"})
     if c.get("history") is not None:
         return judge_history({k: v for k, v in c.items()
                               if k not in ("history", "coord")},
@@ -269,6 +298,10 @@ def run(rep, tier, seed):
             nh += 1
             for a, b, d in judge_history(c, hist, coord):
                 vs.append((a, b, d, dict(c, history=hist, coord=coord)))
+        if c["runtime"] % 4 == 1:
+            nh += 1
+            for a, b, d in judge_reseed(c):
+                vs.append((a, b, d, dict(c, reseed=True)))
         return vs, nh
     res, _ = engine.parallel_map(work, items, chunk=200)
     fired = 0
